@@ -238,7 +238,7 @@ func maxInt(xs []int) int {
 func TestC17Stream(t *testing.T) {
 	rec := vt.For("C17")
 	rec.Rule("stream codec: 1-40 generated messages (requests, replies, errors, notifications; ids numeric/string/null/absent; nested and unicode params; payloads up to 256 KiB around buffer sizes 512/4096/65536) are written with the real IOCodec into a buffer, the byte stream is handed to a fresh IOCodec through a reader that returns generated chunk sizes (every byte separately, fully coalesced, fixed sizes, mixed patterns); oracle: the sequence read equals the sequence written, then EOF; differential against one persistent json.Decoder; non-trivial = >=2 messages and a read that holds bytes of two messages or splits one; distinct by (count, pattern, stream size)")
-	rapid.Check(t, func(rt *rapid.T) { streamCase(rt, rec) })
+	check(t, func(rt *rapid.T) { streamCase(rt, rec) })
 }
 
 // ---------------------------------------------------------------------------
@@ -261,7 +261,7 @@ func TestC17HTTP(t *testing.T) {
 	ts := httptest.NewServer(srv)
 	defer ts.Close()
 	hs := &jsonrpc2.HTTPService{Endpoint: ts.URL}
-	rapid.Check(t, func(rt *rapid.T) {
+	check(t, func(rt *rapid.T) {
 		val := genJSONValue(rt, 3)
 		if rapid.IntRange(0, 6).Draw(rt, "huge") == 0 {
 			val = strings.Repeat("é🚀x", rapid.SampledFrom([]int{200, 1400, 30000, 90000}).Draw(rt, "hugeLen"))
@@ -578,19 +578,19 @@ func wsCase(rt *rapid.T, rec *vt.Rec, lib string) {
 func TestC17WebSocketGorilla(t *testing.T) {
 	rec := vt.For("C17")
 	rec.Rule("WebSocket codecs (gorilla = the one the binaries ship, gobwas): the repository's WebSocketDial and Upgrader joined over real loopback TCP with a shim under both ends that hands out reads in generated chunk sizes and batches several frames into one TCP write; 1-25 generated messages in one direction; oracle: every message read equals the one written, in order, then the reader sees the connection end; only failure signals are a codec error or a wrong/missing message after the writer flushed (no timing oracle); non-trivial = >=2 messages with batched writes or reads under 64 bytes; distinct by (library, direction, count, pattern, batch)")
-	rapid.Check(t, func(rt *rapid.T) { wsCase(rt, rec, "gorilla") })
+	check(t, func(rt *rapid.T) { wsCase(rt, rec, "gorilla") })
 }
 
 func TestC17WebSocketGobwas(t *testing.T) {
 	rec := vt.For("C17")
-	rapid.Check(t, func(rt *rapid.T) { wsCase(rt, rec, "gobwas") })
+	check(t, func(rt *rapid.T) { wsCase(rt, rec, "gobwas") })
 }
 
 // TestC17ConcurrentWriters — on the codec the binaries ship, concurrent writers never interleave bytes.
 func TestC17ConcurrentWriters(t *testing.T) {
 	rec := vt.For("C17")
 	rec.Rule("concurrent writers (gorilla codec, -race): K=2-6 goroutines write M=5-40 generated messages each over one WebSocket while the reader's shim splits reads; oracle: every message arrives intact, the multiset equals what was written, each writer's own order is preserved; distinct by (K, M, pattern)")
-	rapid.Check(t, func(rt *rapid.T) {
+	check(t, func(rt *rapid.T) {
 		client, server, _, sshim, cleanup := wsPair(rt, "gorilla")
 		defer cleanup()
 		K := rapid.IntRange(2, 6).Draw(rt, "K")
@@ -768,7 +768,7 @@ func TestC17HTTPFaults(t *testing.T) {
 	ts := httptest.NewServer(front)
 	defer ts.Close()
 	tokenN := 0
-	rapid.Check(t, func(rt *rapid.T) {
+	check(t, func(rt *rapid.T) {
 		hs := &jsonrpc2.HTTPService{Endpoint: ts.URL}
 		n := rapid.IntRange(1, 8).Draw(rt, "calls")
 		var seq []string
@@ -851,7 +851,7 @@ func TestC17HTTPConcurrentCalls(t *testing.T) {
 	ts := httptest.NewServer(inner)
 	defer ts.Close()
 	round := 0
-	rapid.Check(t, func(rt *rapid.T) {
+	check(t, func(rt *rapid.T) {
 		n := rapid.IntRange(2, 8).Draw(rt, "callers")
 		rtb := &barrierRT{want: n, release: make(chan struct{})}
 		hs := &jsonrpc2.HTTPService{Endpoint: ts.URL, HTTPClient: http.Client{Transport: rtb}}
